@@ -20,6 +20,7 @@ def L(s):
 class Result:
     def __init__(self):
         self.viol = []          # (tag, message)
+        self.known = []         # (tag, signature, message): genuine defects recognised by a named predicate (known-findings.txt decides)
         self.classes = set()
         self.inconclusive = False
         self.stats = {}
@@ -171,6 +172,12 @@ class Ledger:
                 t = t + DYING
             self.bounces_owed.setdefault(cmd.n, []).append({"chan": cmd.chan, "addr": cmd.recip, "text": t, "alt": alt, "waived": False, "noticed": False})
 
+    def note_term(self):
+        """TERM: passes that could not finish reading their list (channel saturated ever since their last command) are abandoned"""
+        for (n, c), pl in self.passes.items():
+            if pl and pl[-1]["inc"] == self.w.incarnation and not pl[-1].get("eof_possible"):
+                pl[-1]["open_at_term"] = True
+
     def note_alrm(self):
         """ALRM makes everything due at once: remember which (message, channel) pairs are idle and could be served"""
         cand = []
@@ -315,6 +322,12 @@ class Ledger:
                 res.v("C04", "channel %d: delivery number out of range %r (limit %d)" % (c, nums, self.limit(c)))
         self._check_timeout(info, snap)
         self.check_alrm(info)
+        # a pass whose last command was issued can only read the end of its list while the channel has a free slot (del_avail):
+        # remember whether the daemon ever had that chance
+        for (n, c), pl in self.passes.items():
+            if pl and pl[-1]["inc"] == self.w.incarnation and pl[-1]["left"] <= 0 and not pl[-1].get("eof_possible"):
+                if sum(1 for cm in self.w.outstanding if cm.chan == c) < self.limit(c) and not self.term_sent:
+                    pl[-1]["eof_possible"] = True
 
     def discover_all(self):
         for n, ms in list(self.w.mess_seen.items()):
@@ -461,7 +474,9 @@ class Ledger:
                 continue
             for o in self.bounces_owed.get(n, []):
                 if not o["noticed"] and not o["waived"]:
-                    res.v("C03", "message %d left the queue; recipient %r failed permanently (%r) but no bounce naming it was queued" % (n, o["addr"], o["text"][:60]))
+                    msg = "message %d left the queue; recipient %r failed permanently (%r) but no bounce naming it was queued" % (n, o["addr"], o["text"][:60])
+                    res.v("C03", msg)
+                    res.v("C14", msg)
         # at most 2 daemon-queued messages per original in fault-free histories (C14)
         if not self.fault_or_crash and not self.disorder:
             for n, m in self.msgs.items():
@@ -746,6 +761,7 @@ def run_scenario(tree, wpath, sc, maxq=None, world=None):
                 w.signal(signal.SIGALRM)
             elif act[0] == "term":
                 used["term"] += 1
+                led.note_term()
                 led.term_sent = True
                 res.classes.add("term")
                 w.signal(signal.SIGTERM)
@@ -995,7 +1011,13 @@ def check_retry_schedule(sc, led, res):
             due = retry_time(birth, lo, c)
             res.classes.add("retry_checked")
             if nxt["start"] < due:
-                res.v("C15", "message %d channel %d: pass started at %d (age %d), next pass at %d, before the back-off time %d = birth + (isqrt(%d)+%d)^2" % (
-                    n, c, prev["start"], prev["start"] - birth, nxt["start"], due, max(prev["start"] - birth, 0), (10, 20)[c]))
+                msg = "message %d channel %d: pass started at %d (age %d), next pass at %d, before the back-off time %d = birth + (isqrt(%d)+%d)^2" % (
+                    n, c, prev["start"], prev["start"] - birth, nxt["start"], due, max(prev["start"] - birth, 0), (10, 20)[c])
+                if prev["inc"] != nxt["inc"] and prev.get("open_at_term"):
+                    # genuine, recorded: TERM while the pass was still open (its channel saturated) - the retry time is not persisted
+                    res.known.append(("C15", "term_during_open_pass", msg))
+                    res.classes.add("known_term_during_open_pass")
+                else:
+                    res.v("C15", msg)
             if due <= prev["start"]:
                 res.v("C15", "retry time %d is not in the future of the pass start %d" % (due, prev["start"]))
